@@ -273,6 +273,36 @@ class Prover:
                     if not ok or entry is None or pa in entry.atoms() or ra in entry.atoms(): continue
                     eq = Lin.atom(pa) + Lin.atom(ra).scale(ratio) - entry
                     out.setdefault(pa, []).append(eq); out.setdefault(ra, []).append(eq)
+            # two integer counters moving in opposite directions (`values[decoded++] = v; room--`): decoded + room keeps its entry value
+            single = []
+            for R in ints:
+                lr = fi.lin({"k": "inst", "v": R.id, "t": R["t"]})
+                if lr.c == 0 and len(lr.t) == 1 and list(lr.t.values()) == [1]: single.append((R, next(iter(lr.t))))
+            for x in range(len(single)):
+                for y in range(len(single)):
+                    if x == y: continue
+                    (U, ua), (D, da) = single[x], single[y]
+                    ok = True; ratio = None; ins = []
+                    for incU in U["incoming"]:
+                        incD = next((z for z in D["incoming"] if z["b"] == incU["b"]), None)
+                        if incD is None: ok = False; break
+                        lu, ld = fi.lin(incU["v"]), fi.lin(incD["v"])
+                        if incU["b"] in body:
+                            dU = lu - Lin.atom(ua); dD = ld - Lin.atom(da)
+                            if not (dU.is_const() and dD.is_const() and dU.c > 0 and dD.c < 0 and dU.c % (-dD.c) == 0): ok = False; break
+                            k = dU.c // (-dD.c)
+                            if ratio is not None and ratio != k: ok = False; break
+                            ratio = k
+                        else: ins.append((lu, ld))
+                    if not ok or ratio is None or not ins: continue
+                    entry = None
+                    for (lu, ld) in ins:
+                        e0 = lu + ld.scale(ratio)
+                        if entry is not None and entry != e0: ok = False; break
+                        entry = e0
+                    if not ok or entry is None or ua in entry.atoms() or da in entry.atoms(): continue
+                    eq = Lin.atom(ua) + Lin.atom(da).scale(ratio) - entry
+                    out.setdefault(ua, []).append(eq); out.setdefault(da, []).append(eq)
         return out
 
     def prod_upper(self, a, facts):
@@ -302,6 +332,18 @@ class Prover:
                         if ni is not None and ni.op == "udiv" and rest.c >= 0:
                             d = self.fi.lin(ni.ops[1])
                             if d == Y: out.append(A - self.fi.lin(ni.ops[0]))
+        return out
+    def prod_lower(self, a, facts):
+        """lower bounds of a product atom prod(x, y) from the current facts (all atoms are non-negative):  x >= K (const >= 1)  =>  x*y >= K*y"""
+        out = []
+        if not (isinstance(a, tuple) and a[0] == "prod"): return out
+        A = Lin.atom(a)
+        for (x, y) in ((a[1], a[2]), (a[2], a[1])):
+            Y = Lin.atom(y)
+            for f in facts:
+                if f.coeff(x) != -1: continue
+                rest = f + Lin.atom(x)                   # rest - x <= 0
+                if rest.is_const() and rest.c >= 1: out.append(Y.scale(rest.c) - A)
         return out
     rewrite = None
     def split_values(self, a):
@@ -454,7 +496,7 @@ class Prover:
                         finally: self._ne = ne0
                         if not r_: ok = False; break
                     if ok: return True
-                cands = list(facts) + [-eq for eq in self.conserved().get(a, ())]
+                cands = list(facts) + [-eq for eq in self.conserved().get(a, ())] + self.prod_lower(a, facts)
             for f in cands:
                 d = f.coeff(a)
                 if d == 0 or (d > 0) != (c > 0): continue
